@@ -19,7 +19,7 @@ open Verif.Proto Verif.Model.Num Verif.Spec.Arith
 
 def renderRes : Except NumErr Int → String
   | .ok n => "ok:" ++ toString n
-  | .error e => if e == .goPanic then "panic" else "err:" ++ e.name
+  | .error e => if e == .goPanic then "panic" else if e == .nilValue then "nil" else "err:" ++ e.name
 
 def parseTy (s : String) : Option Ty :=
   match s with
